@@ -29,10 +29,13 @@ struct FileDesc {
     /// containers additionally hold a stale second copy of the designated objects they store
     /// (the same number twice inside one object stream)
     dup_within: bool,
+    /// every object stream has an indirect /Length stored in a further object stream (malformed but
+    /// loadable): readers can resolve such containers only late, after the parallel phase
+    late: bool,
 }
 
 fn desc_json(d: &FileDesc) -> Value {
-    json!({"masks": d.masks, "omit": d.omit, "streams": d.streams, "dup_within": d.dup_within})
+    json!({"masks": d.masks, "omit": d.omit, "streams": d.streams, "dup_within": d.dup_within, "late": d.late})
 }
 
 fn desc_from(v: &Value) -> FileDesc {
@@ -41,6 +44,7 @@ fn desc_from(v: &Value) -> FileDesc {
         omit: v["omit"].as_u64().unwrap() as u8,
         streams: v["streams"].as_bool().unwrap(),
         dup_within: v["dup_within"].as_bool().unwrap_or(false),
+        late: v["late"].as_bool().unwrap_or(false),
     }
 }
 
@@ -88,7 +92,14 @@ fn build(d: &FileDesc) -> Vec<u8> {
         sections.push(Section { objects: o, trailer: trailer.clone(), objstm: Some(1), omit_xref: omit.clone(), extra_members: extra });
     }
     let spec = FileSpec { version: "1.7".into(), mark: vec![0xe2, 0xe3, 0xcf, 0xd3], style: Style::Stream, sections, helper_base: Some(100) };
-    let mut ch = if d.streams { Chooser::with_classes(&[("stream.length", 3)]) } else { Chooser::new() };
+    let mut cl: Vec<(&str, usize)> = vec![];
+    if d.streams {
+        cl.push(("stream.length", 3));
+    }
+    if d.late {
+        cl.push(("os.length", 1));
+    }
+    let mut ch = if cl.is_empty() { Chooser::new() } else { Chooser::with_classes(&cl) };
     refpdf::write(&spec, &mut ch).0
 }
 
@@ -106,12 +117,23 @@ fn files(thorough: bool) -> Vec<FileDesc> {
                 x /= 7;
             }
             for omit in [0u8, 1] {
-                v.push(FileDesc { masks: masks.clone(), omit, streams: (i + k) % 3 == 0, dup_within: false });
+                v.push(FileDesc { masks: masks.clone(), omit, streams: (i + k) % 3 == 0, dup_within: false, late: false });
                 if k <= 2 {
-                    v.push(FileDesc { masks: masks.clone(), omit, streams: false, dup_within: true });
+                    v.push(FileDesc { masks: masks.clone(), omit, streams: false, dup_within: true, late: false });
+                    v.push(FileDesc { masks: masks.clone(), omit, streams: false, dup_within: false, late: true });
                 }
             }
         }
+    }
+    // three late containers (3! orders of the deferred list), all mask sequences over {1,3,7}
+    for i in 0..27usize {
+        let mut x = i;
+        let mut masks = vec![];
+        for _ in 0..3 {
+            masks.push([1u8, 3, 7][x % 3]);
+            x /= 3;
+        }
+        v.push(FileDesc { masks, omit: 0, streams: i % 3 == 0, dup_within: false, late: true });
     }
     // larger k: masks from {1,3,7}
     let ks: Vec<usize> = if thorough { vec![5, 6] } else { vec![4] };
@@ -124,7 +146,7 @@ fn files(thorough: bool) -> Vec<FileDesc> {
                 masks.push([1u8, 3, 7][x % 3]);
                 x /= 3;
             }
-            v.push(FileDesc { masks: masks.clone(), omit: if i % 2 == 0 { 0 } else { 5 }, streams: i % 4 == 0, dup_within: i % 5 == 0 });
+            v.push(FileDesc { masks: masks.clone(), omit: if i % 2 == 0 { 0 } else { 5 }, streams: i % 4 == 0, dup_within: i % 5 == 0, late: false });
         }
     }
     v
@@ -282,6 +304,90 @@ fn split_family() -> Vec<(String, Vec<u8>)> {
     out
 }
 
+/// Encrypted files (RC4-128, empty user password, so the loader decrypts them itself) whose object streams
+/// hold the same object numbers in several containers: the containers are expanded by the decryption
+/// step, not by the parallel phase of the reader. Built by the reference writer; the container data are
+/// then encrypted in place by the reference handler (RC4 keeps lengths, so no offset moves).
+fn encrypted_family() -> Vec<(String, Vec<u8>)> {
+    use vharness::refcrypt::{self as rc, MakeParams, Method};
+    let mut out = vec![];
+    let id0: Vec<u8> = (0u8..16).map(|i| i.wrapping_mul(29) ^ 0x3c).collect();
+    for k in 2..=3usize {
+        for i in 0..3usize.pow(k as u32) {
+            let mut x = i;
+            let mut masks = vec![];
+            for _ in 0..k {
+                masks.push([1u8, 3, 7][x % 3]);
+                x /= 3;
+            }
+            let mp = MakeParams {
+                v: 2,
+                r: 3,
+                key_bits: 128,
+                write_length: true,
+                p: -1340,
+                encrypt_metadata: true,
+                write_encrypt_metadata: false,
+                cf: vec![],
+                stmf: None,
+                strf: None,
+                file_key: [0; 32],
+                u_tail: [0x44; 16],
+                salts: [[1; 8], [2; 8], [3; 8], [4; 8]],
+                perms_tail: [0; 4],
+            };
+            let up = rc::prep(3, "").expect("empty password");
+            let op = rc::prep(3, "owner").expect("owner password");
+            let (enc_dict, key) = rc::make(&mp, &id0, &up, &op);
+            let mut sections = vec![];
+            let mut trailer = Dictionary::new();
+            trailer.set("Root", Object::Reference((1, 0)));
+            trailer.set("Encrypt", Object::Reference((50, 1)));
+            trailer.set("ID", Object::Array(vec![Object::String(id0.clone(), lopdf::StringFormat::Hexadecimal), Object::String(id0.clone(), lopdf::StringFormat::Hexadecimal)]));
+            for (j, m) in masks.iter().enumerate() {
+                let mut o: BTreeMap<ObjectId, Object> = BTreeMap::new();
+                if j == 0 {
+                    o.insert((1, 0), Object::Dictionary(dict(vec![("Type", Object::Name(b"Catalog".to_vec()))])));
+                    // generation 1 keeps the encryption dictionary out of every object stream
+                    o.insert((50, 1), Object::Dictionary(enc_dict.clone()));
+                }
+                for (b, n) in DESIGNATED.iter().enumerate() {
+                    if m & (1 << b) != 0 {
+                        o.insert((*n, 0), Object::Dictionary(dict(vec![("Obj", Object::Integer(*n as i64)), ("Copy", Object::Integer(j as i64)), ("N", Object::Name(format!("c{}", j).into_bytes()))])));
+                    }
+                }
+                o.insert((20 + j as u32, 0), Object::Array(vec![Object::Integer(j as i64)]));
+                sections.push(Section { objects: o, trailer: trailer.clone(), objstm: Some(1), omit_xref: vec![], extra_members: vec![] });
+            }
+            let spec = FileSpec { version: "1.7".into(), mark: vec![0xe2, 0xe3, 0xcf, 0xd3], style: Style::Stream, sections, helper_base: Some(100) };
+            let (mut bytes, _) = refpdf::write(&spec, &mut Chooser::new());
+            // encrypt every /Type /ObjStm container in place
+            let mut from = 0usize;
+            let mut n_enc = 0;
+            while let Some(pos) = bytes[from..].windows(13).position(|w| w == b"/Type /ObjStm") .map(|p| p + from) {
+                let head = bytes[..pos].windows(5).rposition(|w| w == b" obj\n").expect("container header");
+                let mut s0 = head;
+                while s0 > 0 && (bytes[s0 - 1].is_ascii_digit() || bytes[s0 - 1] == b' ') {
+                    s0 -= 1;
+                }
+                let hdr = String::from_utf8_lossy(&bytes[s0..head]).to_string();
+                let num: u32 = hdr.split_whitespace().next().unwrap().parse().unwrap();
+                let st = bytes[pos..].windows(7).position(|w| w == b"stream\n").unwrap() + pos + 7;
+                let lpos = bytes[pos..st].windows(8).position(|w| w == b"/Length ").unwrap() + pos + 8;
+                let len: usize = String::from_utf8_lossy(&bytes[lpos..st]).chars().take_while(|c| c.is_ascii_digit()).collect::<String>().parse().unwrap();
+                let okey = rc::object_key(&key, (num, 0), Method::Rc4);
+                let enc = rc::rc4(&okey, &bytes[st..st + len]);
+                bytes[st..st + len].copy_from_slice(&enc);
+                n_enc += 1;
+                from = st + len;
+            }
+            assert_eq!(n_enc, k, "every container encrypted");
+            out.push((format!("encrypted RC4-128, containers {:?}", masks), bytes));
+        }
+    }
+    out
+}
+
 fn schedule_tree_nodes(k: usize) -> u64 {
     // number of ordered prefixes of k distinct blocks: sum_{j=0..k} k!/(k-j)!
     (0..=k).map(|j| factorial(k) / factorial(k - j)).sum()
@@ -340,7 +446,9 @@ fn main() {
         let digests: Vec<String> = fl.iter().map(|d| format!("{:016x}", digest_of(&util::load(&build(d))).0)).collect();
         run.eval(fl.len() as u64);
         run.set("digests", json!(digests));
-        let sd: Vec<String> = split_family().iter().map(|(_, b)| format!("{:016x}", digest_of(&util::load(b)).0)).collect();
+        let mut fam = split_family();
+        fam.extend(encrypted_family());
+        let sd: Vec<String> = fam.iter().map(|(_, b)| format!("{:016x}", digest_of(&util::load(b)).0)).collect();
         run.eval(sd.len() as u64);
         run.set("split_digests", json!(sd));
         run.finish_child();
@@ -348,8 +456,8 @@ fn main() {
     run.rule(
         "files from the reference writer with k object-stream containers (k<=4 quick, <=6 thorough), every assignment of copies of 3 object \
          numbers to containers (all 7^k mask sequences for small k, {1,3,7}^k for large k), with and without cross-reference entries for the \
-         duplicated number, with deferred-length and empty streams; for every file ALL k! x z! orders of the merge blocks / zero-length list are \
-         executed through hook H1 on the real Reader; plus a family of classic-table files (16 and 33 entries x 7 kinds of trouble pair x every position) loaded on pools of 1, 2, 3, 4, 8, 16 threads and by the sequential build, which must all agree; non-trivial = file with a number stored in >= 2 containers or a split-family file; files distinct by construction",
+         duplicated number, with deferred-length and empty streams, and (k <= 3) with every container's own /Length stored in a further object stream so that the containers are resolved late; for every file ALL k! x z! orders of the merge blocks / zero-length list are \
+         executed through hook H1 on the real Reader; plus a family of classic-table files (16 and 33 entries x 7 kinds of trouble pair x every position) loaded on pools of 1, 2, 3, 4, 8, 16 threads and by the sequential build, and 36 RC4-encrypted files whose duplicated object numbers sit in object streams that the decryption step expands, which must all agree; non-trivial = file with a number stored in >= 2 containers or a split-family file; files distinct by construction",
     );
     run.assume("the two mutex-protected appends are the only schedule-visible actions of the parallel phase (DESIGN §3); rayon's collect() is order-preserving");
     let mut seq_split: Vec<String> = vec![];
@@ -378,7 +486,7 @@ fn main() {
             dup_files.fetch_add(1, std::sync::atomic::Ordering::Relaxed);
         }
         max_distinct.fetch_max(outcomes.len() as u64, std::sync::atomic::Ordering::Relaxed);
-        if k != d.masks.len() {
+        if k != d.masks.len() && !d.late {
             eprintln!("MACHINERY: hook saw {} blocks for a file with {} containers ({:?})", k, d.masks.len(), d);
             std::process::exit(3);
         }
@@ -461,15 +569,35 @@ fn main() {
     // workers. Pools of different sizes split the table differently (deterministically), and the sequential
     // build does not split at all: all must agree on every file of the family.
     {
-        let fam = split_family();
+        let mut fam = split_family();
+        let enc = encrypted_family();
+        // the encrypted files must really be decrypted and expanded by the loader, or they test nothing
+        match util::load(&enc[0].1) {
+            Ok(d) if !d.is_encrypted() && d.objects.contains_key(&(2, 0)) => {}
+            other => {
+                eprintln!("MACHINERY: the encrypted family is not decrypted on load: {:?}", other.map(|d| d.objects.keys().cloned().collect::<Vec<_>>()));
+                std::process::exit(3);
+            }
+        }
+        run.set("encrypted_family_files", json!(enc.len()));
+        fam.extend(enc);
         let pools: Vec<(usize, rayon::ThreadPool)> = [1usize, 2, 3, 4, 8, 16].iter().map(|t| (*t, rayon::ThreadPoolBuilder::new().num_threads(*t).build().unwrap())).collect();
         let mut loads = 0u64;
         for (i, (label, bytes)) in fam.iter().enumerate() {
             let mut seen: BTreeMap<u64, Vec<String>> = BTreeMap::new();
+            // (files of the encrypted family are loaded 8 times per pool: the order in which a parallel
+            // decryption step would finish is not under the hook's control - this repetition is SAMPLING)
+            let reps = if label.starts_with("encrypted") { 8 } else { 1 };
             for (t, pool) in &pools {
-                let dg = pool.install(|| digest_of(&load_with(bytes, MergeOrder::Sorted)).0);
-                seen.entry(dg).or_default().push(format!("pool({})", t));
-                loads += 1;
+                for _ in 0..reps {
+                    let dg = pool.install(|| digest_of(&load_with(bytes, MergeOrder::Sorted)).0);
+                    let e = seen.entry(dg).or_default();
+                    let name = format!("pool({})", t);
+                    if !e.contains(&name) {
+                        e.push(name);
+                    }
+                    loads += 1;
+                }
             }
             let dg = digest_of(&load_with(bytes, MergeOrder::Sorted)).0;
             seen.entry(dg).or_default().push("global pool".into());
